@@ -5,7 +5,7 @@ from __future__ import annotations
 import ast
 from typing import Optional
 
-from ..core.repo import (AnalysisError, Repo, call_name, calls_in, definitions, dotted, is_const,
+from ..core.repo import (AnalysisError, Repo, call_name, calls_in, definitions, dotted, func_params, is_const,
                          kwarg, names_in, unparse, walk_no_nested_defs)
 from ..domains.kat import COL, ROW, Comp, Ext, KAT, Pair, Seq
 from .c09 import _partition_idiom
@@ -152,8 +152,21 @@ def _com_of(region: Region, kat: KAT, name_or_expr, label: str):
     if dsum is None:
         raise AnalysisError(f"{label}: divisor `{unparse(dv)[:50]}` is not a sum")
     total = sorted(unparse(_strip_bcast(x)) for x in _factors(dsum[0]))
+    # the same NAME is the same VALUE only if it is not rebound / updated in place between the two uses
+    lt, ln = getattr(dsum[0], "lineno", None), getattr(e, "lineno", None)
+    stale = []
+    if lt is not None and ln is not None and lt != ln:
+        lo, hi = min(lt, ln), max(lt, ln)
+        wnames = {x.id for w in _factors(summand) for x in ast.walk(_strip_bcast(w)) if isinstance(x, ast.Name)} & \
+                 {x.id for w in _factors(dsum[0]) for x in ast.walk(_strip_bcast(w)) if isinstance(x, ast.Name)}
+        for n in ast.walk(region.mod):
+            if isinstance(n, (ast.Assign, ast.AugAssign)) and lo <= n.lineno < hi and n.lineno != lt:
+                tg = n.targets[0] if isinstance(n, ast.Assign) else n.target
+                for x in ast.walk(tg):
+                    if isinstance(x, ast.Name) and x.id in wnames and (isinstance(tg, ast.Name) or (isinstance(tg, ast.Subscript) and x is tg.value)):
+                        stale.append((x.id, n.lineno, unparse(n)[:60]))
     return {"grid": v, "grid_text": unparse(base), "impure": impure, "weights": sorted(weights), "total": total,
-            "dims": dims, "total_dims": dsum[1], "node": e}
+            "dims": dims, "total_dims": dsum[1], "node": e, "stale": stale}
 
 
 def _strip_sub(e: ast.AST) -> ast.AST:
@@ -173,6 +186,9 @@ def _check_component(check, mod, rule, label, slot, info) -> None:
     check.decide(not info["impure"], rule, f"{label}: slot {slot} grid is a pure coordinate grid", "", mod.line(info["node"]),
                  fail_detail=f"the coordinate factor `{info['grid_text']}` depends on {info['impure']}: weights folded into the grid are "
                              f"missing from the normalising total")
+    check.decide(not info.get("stale"), rule, f"{label}: slot {slot} numerator and normalising total read the same version of the weights", "", mod.line(info["node"]),
+                 fail_detail=f"{[(n, t) for n, _, t in info.get('stale', [])]} rebinds/updates the weights between the normalising total and the numerator: "
+                             f"the moments are divided by the total of a different (e.g. unmasked) intensity")
     check.decide(info["weights"] == info["total"], rule, f"{label}: slot {slot} numerator weights = summand of the normalising total",
                  f"{info['weights']}", mod.line(info["node"]),
                  fail_detail=f"numerator weights {info['weights']} but the total sums {info['total']}: the result is not the "
@@ -284,6 +300,39 @@ def run(check, repo: Repo) -> None:
     ok = const_arm is not None and any(isinstance(s, ast.Assign) and unparse(s.value) == "self.origin_measured.mean(0)" for s in const_arm.body)
     check.decide(ok, "C18-R5", "fit_origin_background[constant] = mean of the measured origins over positions", "", omod.line(const_arm or fitf),
                  fail_detail="the constant fit is not self.origin_measured.mean(0)")
+    # inferred probe positions: flattened in the same (row-major over the two scan axes) order as the measured origins
+    mg = [c for c in calls_in(fitf) if (call_name(c) or "").endswith("meshgrid")]
+    if len(mg) != 1 or len(mg[0].args) != 2:
+        raise AnalysisError("fit_origin_background: the meshgrid of inferred scan positions was not found")
+
+    def scan_axis(e, depth=0):
+        """index into dataset.shape[:2] whose extent the 1-D coordinate vector e runs over"""
+        if depth > 5:
+            return None
+        if isinstance(e, ast.Name):
+            dd = definitions(fitf, e.id)
+            if len(dd) == 1 and dd[0].__class__.__name__ == "TupleItem" and "dataset.shape" in unparse(dd[0].value):
+                return dd[0].index
+            if len(dd) == 1 and isinstance(dd[0], ast.AST):
+                return scan_axis(dd[0], depth + 1)
+            return None
+        if isinstance(e, ast.Call) and (call_name(e) or "").split(".")[-1] in ("arange", "linspace") and e.args:
+            return scan_axis(e.args[0] if (call_name(e) or "").endswith("arange") else (kwarg(e, "steps") or e.args[-1]), depth + 1)
+        if isinstance(e, ast.Subscript) and "dataset.shape" in unparse(e.value) and isinstance(e.slice, ast.Constant):
+            return e.slice.value
+        if isinstance(e, ast.Call) and isinstance(e.func, ast.Attribute) and e.func.attr in ("to", "float", "double"):
+            return scan_axis(e.func.value, depth + 1)
+        return None
+    axes = [scan_axis(a) for a in mg[0].args]
+    if None in axes:
+        raise AnalysisError(f"fit_origin_background: meshgrid arguments `{unparse(mg[0])[:70]}` are not coordinate vectors over dataset.shape[:2]")
+    ix = kwarg(mg[0], "indexing")
+    ij = ix is not None and is_const(ix, "ij")
+    want_axes = [0, 1] if ij else [1, 0]
+    check.decide(axes == want_axes, "C18-R5", "fit_origin_background: inferred scan positions are laid out (scan axis 0, scan axis 1) — the row-major order of the measured origins",
+                 f"meshgrid axes {axes}, indexing={'ij' if ij else 'xy'}", omod.line(mg[0]),
+                 fail_detail=f"`{unparse(mg[0])[:80]}` yields grids of shape (extent of scan axis {axes[0] if ij else axes[1]}, extent of scan axis {axes[1] if ij else axes[0]}): flattened, "
+                             f"position k is not the position of measured origin k on non-square scans, so a plane is fitted through wrongly paired points")
     # plane fit: x/y components fitted from the matching slot, evaluated with their own coefficients
     txt = unparse(fitf)
     ok = "com_x_pts = torch.concatenate((probe_positions, self.origin_measured[:, 0, None]), 1)" in txt and \
@@ -359,11 +408,29 @@ def _shift_rule(check, mod, fn) -> None:
                  "shift_origin_to: align_corners=True is paired with the (N − 1) normalisation", f"align_corners={unparse(ac) if ac is not None else None}, divisors {norms}",
                  mod.line(gs[0]),
                  fail_detail=f"align_corners={unparse(ac) if ac is not None else 'default'} with divisors {norms}: integer shifts no longer land on pixel centres")
+    # periodic wrap: every normalised coordinate (the numerator of a `/ (N − 1)` division) has passed through a `% extent`, i.e. a Mod node
+    # occurs in the numerator once single-definition locals are resolved; the wrap must act on un-normalised pixel coordinates
+    def has_mod(e, depth=0, seen=()):
+        for x in ast.walk(e):
+            if isinstance(x, ast.BinOp) and isinstance(x.op, ast.Mod):
+                return True
+        if depth > 5:
+            return False
+        for x in ast.walk(e):
+            if isinstance(x, ast.Name) and x.id not in seen:
+                for d in definitions(fn, x.id):
+                    if isinstance(d, ast.AST) and has_mod(d, depth + 1, seen + (x.id,)):
+                        return True
+        return False
+    divs = [n for n in ast.walk(fn) if isinstance(n, ast.BinOp) and isinstance(n.op, ast.Div) and isinstance(k.ev(n.left), (Comp, Pair))]
+    check.floor("shift_origin_to: coordinate normalisations", len(divs), 2)
+    unwrapped = [unparse(n)[:60] for n in divs if not has_mod(n.left)]
     wraps = [n for n in ast.walk(fn) if isinstance(n, ast.BinOp) and isinstance(n.op, ast.Mod)]
-    ok = len(wraps) == 1 and unparse(wraps[0].right) == "size_tensor" and isinstance(k.ev(wraps[0].left), Pair)
-    order_ok = ok and not any(isinstance(n, ast.BinOp) and isinstance(n.op, ast.Div) and any(w is x for x in ast.walk(n.right) for w in wraps) for n in ast.walk(fn))
-    check.decide(ok and order_ok, "C18-R4", "shift_origin_to: coordinates are wrapped modulo the detector extents before normalisation", "", mod.line(fn),
-                 fail_detail="the periodic wrap `% size_tensor` on the (row, col) grid is missing or applied after normalisation")
+    late = [unparse(w)[:60] for w in wraps if any(isinstance(x, ast.BinOp) and isinstance(x.op, ast.Div) for x in ast.walk(w.left))]
+    check.decide(not unwrapped and not late and bool(wraps), "C18-R4", "shift_origin_to: coordinates are wrapped modulo the detector extents before normalisation",
+                 f"{len(wraps)} wrap(s), {len(divs)} normalisation(s)", mod.line(fn),
+                 fail_detail=f"normalisations without a periodic wrap in their numerator: {unwrapped}; wraps applied to already normalised values: {late} — "
+                             f"samples beyond the border are zero-padded instead of wrapping: not a circular roll")
     loop = next((n for n in walk_no_nested_defs(fn) if isinstance(n, ast.For)), None)
     if loop is None:
         raise AnalysisError("shift_origin_to: batch loop not found")
